@@ -30,6 +30,22 @@ Parameter / regime coverage added by the audit of the signatures:
 * long / wide / larger matrices 600x4, 3x700, 1x300, 30x30 (thorough 2x2048, 28x90).
 Not covered on purpose: full_matrix(order='C') - the parameter is undocumented and the property fixes only the
 inverse of svd_matrix's interleaving (order 'F').
+
+Input forms (round 6):
+* dtype of the dense input (param `dtype` of every svd / svd_matrix / matrix clause; `DTYPES` = int64, int32, int16,
+  uint8, bool, float32, big-endian float64), also Fortran-ordered / strided / reversed views of these: integer and bool
+  data take the integer-valued member of the family (`int_array` / `int_matrix`, factors 1 .. 1e6), the reference is the
+  float64 image of what is passed, the result must be a floating TT (cores truncated to the input dtype are caught by
+  well-formedness, error bound and exact_lowrank).  float32 data: the unchanged library factorises in float32 and
+  returns float32 cores, so "rounding accuracy" is that of the data (`_eps`): floors c eps32 ||A||, thresholds / margins
+  1e-3 instead of 1e-6, exact_lowrank with e = 1e-4 ||A||; oracles evaluate the returned cores in float64.
+  `C03.matrix_svd.integer_input` keeps matrix_svd on integer / bool matrices apart (the Gram matrix is formed in the
+  input dtype and wraps round for int16 / uint8 / bool / large int32 - a finding on the pinned tree).
+* call FORMS (param `form`, `gen.call_form` against the documented signatures `SIG`): every argument positionally in
+  the documented order (matrix_skeleton(A, e, r, hermitian, rel, give_to)), all by keyword, positional prefix +
+  keywords (mix:k), trailing defaults left out (min / kwmin) - for svd, svd_matrix, matrix_skeleton (all hermitian x
+  rel x give_to, square / non-square, scales 1e-5 / 1 / 1e4), matrix_svd, full_matrix; the documented DEFAULTS
+  (e = 1e-10, r = 1e12, give_to = 'm') are exercised on data whose tails straddle 1e-10.
 """
 import itertools, math
 import numpy as np
@@ -38,12 +54,14 @@ from rtc.api import clause, PASS, FAIL, TRIVIAL, SKIP
 from rtc import gen
 
 
-BUDGET = (55, 560)
+BUDGET = (60, 600)
 BOUNDS = ('svd: d in {2,3,4} (thorough 5), modes 1..5, 13 magnitudes 1e-6..1e6, 5 array families, e in rel {0.5..1e-9} '
           'and (1 +- 1e-6) x every unfolding tail, caps {1e12,1,2,3,2.7}; svd_matrix/full_matrix q <= 5 (thorough 8) '
           'on integer-coded matrices; matrix factorisations: shapes 1x1 .. 7x5, 8 spectra, scales 1e-6..1e6, '
           'all give_to x rel x hermitian, thresholds at every tail; e >= ||A||, zero arrays / matrices, input layouts F / '
-          'strided / negative strides, modes up to 1025 (thorough 2048), d up to 10 (thorough 11), matrices up to 600x4 / 3x700 / 30x30')
+          'strided / negative strides, modes up to 1025 (thorough 2048), d up to 10 (thorough 11), matrices up to 600x4 / 3x700 / 30x30; '
+          'input dtypes int64 / int32 / int16 / uint8 / bool / float32 / >f8 (x layouts) for svd, svd_matrix (q = 2..5), matrix_skeleton, '
+          'matrix_svd; call forms pos / kw / mix:k / min / kwmin against the documented signatures, defaults on data straddling 1e-10')
 
 EPS = np.finfo(float).eps
 MAGS = [10.0 ** k for k in range(-6, 7)]
@@ -169,34 +187,52 @@ def _layout(A, layout):
     raise ValueError(layout)
 
 
-def run_svd(n, seed, kind, mag, e, cap, via, layout='C'):
+def run_svd(n, seed, kind, mag, e, cap, via, layout='C', dtype='float64', form='pos'):
+    """dtype: dtype of the dense input (integer / bool dtypes take the integer-valued member of the family, see
+    int_array); the reference array is always the float64 image of what is passed.  form: call form (gen.call_form)
+    against the documented signature (Y_full, e=1e-10, r=1e12)."""
     c = Case()
+    c.eps = _eps(dtype)
+    isint = np.dtype(dtype).kind in 'iub' or kind.startswith('i:')      # 'i:<kind>': integer-valued member, any dtype
+    kind = kind[2:] if kind.startswith('i:') else kind
+    fam = (lambda n_, s_, k_, m_: int_array(n_, s_, k_, m_, dtype)) if isint else array
     if via == 'svd_matrix':
         q = len(n)
         if any(k != 4 for k in n):
             raise ValueError('svd_matrix cases use mode size 4')
-        M = array([2 ** q, 2 ** q], seed, kind if not kind.startswith('lowrank') else 'gauss', mag)
+        M = fam([2 ** q, 2 ** q], seed, kind if not kind.startswith('lowrank') else 'gauss', mag)
         if kind.startswith('lowrank'):       # low QTT rank: interleaved tensor of a low-rank TT, mapped back
-            T = array(n, seed, kind, mag)
+            T = fam(n, seed, kind, mag)
             I = gen.all_indices([4] * q)
             i = sum(((I[:, k] & 1) << k) for k in range(q))
             j = sum(((I[:, k] >> 1) << k) for k in range(q))
             M = np.zeros((2 ** q, 2 ** q))
             M[i, j] = T.reshape(-1)
+        if dtype != 'float64':
+            M = typed(M, dtype)
+            if M is None:
+                return None, SKIP('values do not fit the dtype')
         c.inp = _layout(M, layout)
-        c.A = _interleave(M, q)
+        c.A = _interleave(M.astype(float), q)
         fn = teneva.svd_matrix
     else:
-        c.inp = array(n, seed, kind, mag)
-        c.A = c.inp
+        c.inp = fam(n, seed, kind, mag)
+        if c.inp is not None and dtype != 'float64':
+            c.inp = typed(c.inp, dtype)
+            if c.inp is None:
+                return None, SKIP('values do not fit the dtype')
+        c.A = c.inp if dtype == 'float64' else (None if c.inp is None else c.inp.astype(float))
         if c.inp is not None:
             c.inp = _layout(c.inp, layout)
         fn = teneva.svd
     if c.inp is None:
         return None, SKIP('zero array')
+    if str(c.inp.dtype) != str(np.dtype(dtype)):
+        raise RuntimeError(f'case builder: input dtype {c.inp.dtype}, wanted {dtype}')
     c.d = len(n)
     c.nrm = float(np.linalg.norm(c.A))
     c.svs = [np.linalg.svd(c.A.reshape(int(np.prod(n[:k])), -1), compute_uv=False) for k in range(1, c.d)]
+    wide = 1.0 if c.eps <= EPS else 1e3      # float32 data: thresholds / margins in units of its rounding level
     if e[0] == 'rel':
         c.e = e[1] * c.nrm
         if not c.e > 0:
@@ -208,12 +244,12 @@ def run_svd(n, seed, kind, mag, e, cap, via, layout='C'):
         if k >= len(c.svs) or not (1 <= q < len(c.svs[k])):
             return None, SKIP('no such threshold')
         t = tails(c.svs[k])[q]
-        if t < 1e-6 * c.nrm:
+        if t < 1e-6 * wide * c.nrm:
             return None, SKIP('threshold below 1e-6 ||A||')
-        c.e = t * (1 + sign * 1e-6)
+        c.e = t * (1 + sign * 1e-6 * wide)
     c.cap = cap
     snap = gen.snapshot(c.inp)
-    c.Y = fn(c.inp, c.e, cap)
+    c.Y = gen.call_form(fn, SIG[via][0], [c.inp, c.e, cap], SIG[via][1], form)
     if gen.snapshot(c.inp) != snap:
         return None, FAIL('input array changed')
     msg = gen.wf(c.Y, n)
@@ -222,15 +258,15 @@ def run_svd(n, seed, kind, mag, e, cap, via, layout='C'):
     if not gen.finite(c.Y):
         return None, FAIL('non-finite cores')
     c.rk = [1] + [G.shape[2] for G in c.Y]
-    c.err = float(np.linalg.norm(gen.dense(c.Y) - c.A))
+    c.err = float(np.linalg.norm(gen.dense([np.asarray(G, dtype=float) for G in c.Y]) - c.A))
     c.capbinds = cap < 1e6 and any(x >= max(1, int(cap)) for x in c.rk[1:-1])
     return c, None
 
 
 @clause('C03.svd.shape_ranks', funcs=('svd.svd', 'svd.svd_matrix'))
-def svd_shape_ranks(n, seed, kind, mag, e, cap, via, layout='C'):
+def svd_shape_ranks(n, seed, kind, mag, e, cap, via, layout='C', dtype='float64', form='pos'):
     """Well-formed finite TT of the input's shape; every rank <= max(1, int(r)) and <= the size of its unfolding."""
-    c, res = run_svd(n, seed, kind, mag, e, cap, via, layout)
+    c, res = run_svd(n, seed, kind, mag, e, cap, via, layout, dtype, form)
     if c is None:
         return res
     for k in range(1, c.d):
@@ -243,14 +279,14 @@ def svd_shape_ranks(n, seed, kind, mag, e, cap, via, layout='C'):
 
 
 @clause('C03.svd.error_bound', funcs=('svd.svd', 'svd.svd_matrix', 'svd.matrix_skeleton'))
-def svd_error_bound(n, seed, kind, mag, e, cap, via, layout='C'):
+def svd_error_bound(n, seed, kind, mag, e, cap, via, layout='C', dtype='float64', form='pos'):
     """Cap not binding: ||A - full(svd(A, e))|| <= e sqrt(d-1), whatever the scale of the data."""
-    c, res = run_svd(n, seed, kind, mag, e, cap, via, layout)
+    c, res = run_svd(n, seed, kind, mag, e, cap, via, layout, dtype, form)
     if c is None:
         return res
     if c.capbinds:
         return SKIP('cap binds')
-    lim = c.e * math.sqrt(max(1, c.d - 1)) * (1 + 1e-6) + 64 * c.d * EPS * c.nrm
+    lim = c.e * math.sqrt(max(1, c.d - 1)) * (1 + 1e-6) + 64 * c.d * c.eps * c.nrm
     if not c.err <= lim:
         return FAIL(f'error {c.err:.6e} > e sqrt(d-1) = {c.e * math.sqrt(c.d - 1):.6e} (ratio {c.err / (c.e * math.sqrt(c.d - 1)):.3f}, '
                     f'||A|| = {c.nrm:.3e}, ranks {c.rk})')
@@ -259,16 +295,18 @@ def svd_error_bound(n, seed, kind, mag, e, cap, via, layout='C'):
 
 
 @clause('C03.svd.rank_minimal', funcs=('svd.svd', 'svd.svd_matrix', 'svd.matrix_skeleton'))
-def svd_rank_minimal(n, seed, kind, mag, e, cap, via, layout='C'):
+def svd_rank_minimal(n, seed, kind, mag, e, cap, via, layout='C', dtype='float64', form='pos'):
     """Each rank <= the smallest rank whose tail energy in the corresponding unfolding of the input is <= e."""
-    c, res = run_svd(n, seed, kind, mag, e, cap, via, layout)
+    c, res = run_svd(n, seed, kind, mag, e, cap, via, layout, dtype, form)
     if c is None:
         return res
     if c.e < 1e-9 * c.nrm:
         return SKIP('e below the rounding floor 1e-9 ||A||')
+    # data given in a shorter floating type: the tails are resolved to its rounding level only (slack in e)
+    lim = c.e * (1 - 5e-7) if c.eps <= EPS else c.e * (1 - 64 * c.eps) - 64 * c.d * c.eps * c.nrm
     for k, s in enumerate(c.svs):
         t = tails(s)
-        qmin = max(1, next(q for q in range(len(t)) if t[q] <= c.e * (1 - 5e-7)))
+        qmin = max(1, next((q for q in range(len(t)) if t[q] <= lim), len(t) - 1))
         if c.rk[k + 1] > qmin:
             return FAIL(f'bond {k + 1}: rank {c.rk[k + 1]} > minimal rank {qmin} with tail <= e = {c.e:.6e} '
                         f'(tails {t[max(0, qmin - 1):qmin + 1]}, ||A|| = {c.nrm:.3e})')
@@ -276,21 +314,27 @@ def svd_rank_minimal(n, seed, kind, mag, e, cap, via, layout='C'):
 
 
 @clause('C03.svd.exact_lowrank', funcs=('svd.svd', 'svd.svd_matrix'))
-def svd_exact_lowrank(n, seed, rho, mag, via):
+def svd_exact_lowrank(n, seed, rho, mag, via, dtype='float64', layout='C', form='pos'):
     """Arrays of exact low TT-rank are reproduced to rounding accuracy with exactly the ranks of their unfoldings
-    (e = 1e-8 ||A||); SKIP unless every unfolding has a clear numerical rank."""
-    c, res = run_svd(n, seed, f'lowrank:{rho}', mag, ['rel', 1e-8], 1e12, via)
+    (e = 1e-8 ||A||); SKIP unless every unfolding has a clear numerical rank.  dtype != float64: integer-valued
+    arrays of exact low rank given in that dtype (float32 data: e = 1e-4 ||A||, gap 1e-2 - its rounding level is 1e-7)."""
+    f64 = _eps(dtype) <= EPS
+    c, res = run_svd(n, seed, f'lowrank:{rho}' if dtype == 'float64' else f'i:lowrank:{rho}', mag, ['rel', 1e-8 if f64 else 1e-4],
+                     1e12, via, layout, dtype, form)
     if c is None:
         return res
+    gap = 1e-5 if f64 else 1e-2
     want = [1]
     for s in c.svs:
-        if np.any((s > 1e-12 * s[0]) & (s < 1e-5 * s[0])):
+        if s[0] == 0:
+            return SKIP('zero array')
+        if np.any((s > 1e-12 * s[0]) & (s < gap * s[0])):
             return SKIP('unfolding without a clear numerical rank')
-        want.append(int(np.sum(s >= 1e-5 * s[0])))
+        want.append(int(np.sum(s >= gap * s[0])))
     want.append(1)
     if c.rk != want:
         return FAIL(f'ranks {c.rk}, TT-ranks of the array {want} (||A|| = {c.nrm:.1e})')
-    if not c.err <= 1e4 * EPS * c.d * c.nrm:
+    if not c.err <= 1e4 * c.eps * c.d * c.nrm:
         return FAIL(f'error {c.err:.3e} is not at rounding level of ||A|| = {c.nrm:.1e}')
     return PASS
 
@@ -298,9 +342,10 @@ def svd_exact_lowrank(n, seed, rho, mag, via):
 # ----------------------------------------------------------------------------- svd_matrix / full_matrix
 
 @clause('C03.svd_matrix.roundtrip', funcs=('svd.svd_matrix', 'transformation.full_matrix'))
-def svd_matrix_roundtrip(q, coding, cap, layout='C'):
+def svd_matrix_roundtrip(q, coding, cap, layout='C', dtype='float64', form='pos'):
     """Integer-coded 2^q x 2^q matrix: q cores of mode size 4, TT entry at digits m_k = i_k + 2 j_k is A[i, j];
-    full_matrix inverts the interleaving (exact after rounding to integers); ranks <= cap."""
+    full_matrix inverts the interleaving (exact after rounding to integers); ranks <= cap.  dtype: the matrix is
+    given in that dtype (unsigned / bool: shifted to >= 0 / parity); form: call form of svd_matrix and full_matrix."""
     N = 2 ** q
     i, j = np.meshgrid(np.arange(N), np.arange(N), indexing='ij')
     if coding == 'pos':
@@ -309,9 +354,15 @@ def svd_matrix_roundtrip(q, coding, cap, layout='C'):
         A = (i + 1.0) * (j + 2.0)
     else:
         A = gen.rng('sm', q, coding).integers(-50, 51, size=(N, N)).astype(float)
+    eps = _eps(dtype)
+    if dtype != 'float64':
+        A = typed(A, dtype)
+        if A is None:
+            return SKIP('values do not fit the dtype')
     A = _layout(A, layout)
+    Af = A.astype(float)
     snap = gen.snapshot(A)
-    Y = teneva.svd_matrix(A, 1e-10, cap)
+    Y = gen.call_form(teneva.svd_matrix, SIG['svd_matrix'][0], [A, 1e-10, cap], SIG['svd_matrix'][1], form)
     if gen.snapshot(A) != snap:
         return FAIL('input changed')
     msg = gen.wf(Y, [4] * q) if q >= 1 else None
@@ -323,20 +374,22 @@ def svd_matrix_roundtrip(q, coding, cap, layout='C'):
         return FAIL('non-finite cores')
     if cap < 1e6:
         return TRIVIAL('cap: structure only')
-    T = gen.dense(Y)
-    W = _interleave(A, q)
-    tol = 1e-9 * max(1.0, np.abs(A).max())
+    T = gen.dense([np.asarray(G, dtype=float) for G in Y])
+    W = _interleave(Af, q)
+    tol = max(1e-9, 4096 * eps) * max(1.0, np.abs(Af).max()) * (1 if eps <= EPS else N)
     if T.shape != W.shape or not np.abs(T - W).max() <= tol:
         return FAIL(f'TT entries differ from A[i,j] at interleaved digits: max dev {np.abs(T - W).max():.3e}')
-    B = teneva.full_matrix(Y)
-    if B.shape != A.shape or not np.array_equal(np.rint(B), A) or not np.abs(B - A).max() <= tol:
-        return FAIL(f'full_matrix(svd_matrix(A)) != A: {int(np.sum(np.rint(B) != A))} entries differ')
+    B = gen.call_form(teneva.full_matrix, SIG['full_matrix'][0], [Y, 'F'], SIG['full_matrix'][1],
+                      {'pos': 'pos', 'kw': 'kw'}.get(form, 'min'))
+    if B.shape != A.shape or not np.array_equal(np.rint(B), Af) or not np.abs(B - Af).max() <= tol:
+        return FAIL(f'full_matrix(svd_matrix(A)) != A: {int(np.sum(np.rint(B) != Af))} entries differ')
     return PASS
 
 
 @clause('C03.full_matrix.interleave', funcs=('transformation.full_matrix',))
-def full_matrix_interleave(q, r, seed):
-    """full_matrix of an integer QTT-matrix: M[sum i_k 2^k, sum j_k 2^k] = T[(i_k + 2 j_k)_k], compared with ==."""
+def full_matrix_interleave(q, r, seed, form='min'):
+    """full_matrix of an integer QTT-matrix: M[sum i_k 2^k, sum j_k 2^k] = T[(i_k + 2 j_k)_k], compared with ==.
+    form: full_matrix(Y) / full_matrix(Y, 'F') / full_matrix(Y=Y, order='F') - the signature's default spelled out."""
     Y = gen.tt([4] * q, r, seed, 'int')
     T = gen.dense_exact(Y)
     N = 2 ** q
@@ -345,7 +398,7 @@ def full_matrix_interleave(q, r, seed):
         i = sum((m & 1) << k for k, m in enumerate(idx))
         j = sum((m >> 1) << k for k, m in enumerate(idx))
         want[i, j] = float(T[idx])
-    M = teneva.full_matrix(Y)
+    M = gen.call_form(teneva.full_matrix, SIG['full_matrix'][0], [Y, 'F'], SIG['full_matrix'][1], form)
     if M.shape != (N, N) or not np.array_equal(M, want):
         return FAIL('full_matrix differs from the de-interleaved tensor')
     return PASS
@@ -381,15 +434,51 @@ def matrix(m, n, seed, kind, scale):
     return np.ascontiguousarray(A * scale)
 
 
-def run_matrix(fn, m, n, seed, kind, scale, e, cap, rel=False, layout='C', **kw):
+def int_matrix(m, n, seed, kind, scale, dtype):
+    """Integer-valued member of a matrix family (float64 holding integers) times the integer factor max(1, int(scale))
+    (8-bit dtypes: 1): 'rank:k' product of integer factors, 'sym' B + B^T, otherwise rint(10 x the unit-scale member)."""
+    g = gen.rng('C03imat', m, n, seed, kind)
+    small = np.dtype(dtype).kind in 'bu' and np.dtype(dtype).itemsize == 1
+    f = 1 if small else max(1, int(scale))
+    if kind == 'zero':
+        return np.zeros((m, n))
+    if kind.startswith('rank:'):
+        rho = int(kind[5:])
+        lo = 0 if small else -3
+        A = (g.integers(lo, 4, size=(m, rho)) @ g.integers(lo, 4, size=(rho, n))).astype(float)
+    elif kind == 'sym':
+        B = g.integers(-5, 6, size=(m, m)).astype(float)
+        A = B + B.T
+    else:
+        A = np.rint(10.0 * matrix(m, n, seed, kind, 1.0))
+        if kind.startswith('symspec:'):
+            A = np.rint((A + A.T) / 2)
+    return A * f
+
+
+def run_matrix(fn, m, n, seed, kind, scale, e, cap, rel=False, layout='C', dtype='float64', form='std', **kw):
+    """dtype: dtype of the matrix that is passed (integer / bool: integer-valued member of the family); the reference is
+    the float64 image of what is passed.  form: 'std' (the historical call: A, e, r positional, options by keyword) or a
+    call form of gen.call_form against the documented signature."""
     c = Case()
-    c.A = _layout(matrix(m, n, seed, kind, scale), layout)
+    c.eps = _eps(dtype)
+    if np.dtype(dtype).kind in 'iub':
+        A = int_matrix(m, n, seed, kind, scale, dtype)
+    else:
+        A = matrix(m, n, seed, kind, scale)
+    if dtype != 'float64':
+        A = typed(A, dtype)
+        if A is None:
+            return None, SKIP('values do not fit the dtype')
+    c.inp = _layout(A, layout)
+    c.A = c.inp.astype(float) if dtype != 'float64' else c.inp
     c.s = np.linalg.svd(c.A, compute_uv=False)
     c.nrm = float(np.linalg.norm(c.A))
     if (c.nrm == 0 or c.s[0] == 0) and (kind != 'zero' or rel or e[0] != 'abs'):
         return None, SKIP('zero matrix')
     c.t = tails(c.s / c.s[0]) if rel else tails(c.s)
     c.ref = (c.nrm / c.s[0]) if rel else c.nrm         # size of tail(0) in the units of e
+    wide = 1.0 if c.eps <= EPS else 1e3      # float32 data: thresholds / margins in units of its rounding level
     if e[0] == 'rel':
         c.e = e[1] * c.ref
     elif e[0] == 'abs':
@@ -398,24 +487,32 @@ def run_matrix(fn, m, n, seed, kind, scale, e, cap, rel=False, layout='C', **kw)
         _, q, sign = e
         if not (1 <= q < len(c.s)):
             return None, SKIP('no such threshold')
-        if c.t[q] < kw.get('floor', 1e-7) * c.ref:
+        if c.t[q] < kw.get('floor', 1e-7) * wide * c.ref:
             return None, SKIP('threshold below the rounding floor')
-        c.e = c.t[q] * (1 + sign * 1e-6)
+        c.e = c.t[q] * (1 + sign * 1e-6 * wide)
     c.cap = cap
-    snap = gen.snapshot(c.A)
+    snap = gen.snapshot(c.inp)
     kw.pop('floor', None)
     if fn is teneva.matrix_skeleton:
         kw['rel'] = rel
-    out = fn(c.A, c.e, cap, **kw)
-    if gen.snapshot(c.A) != snap:
+    if form == 'std':
+        out = fn(c.inp, c.e, cap, **kw)
+    else:
+        names, dflt = SIG['matrix_skeleton' if fn is teneva.matrix_skeleton else 'matrix_svd']
+        vals = [c.inp, c.e, cap] + [kw.get(k, dv) for k, dv in zip(names[3:], dflt[3:])]
+        out = gen.call_form(fn, names, vals, dflt, form)
+    if gen.snapshot(c.inp) != snap:
         return None, FAIL('input matrix changed')
     if not isinstance(out, tuple) or len(out) != 2:
         return None, FAIL('result is not a pair')
     c.U, c.V = out
     if c.U.ndim != 2 or c.V.ndim != 2 or c.U.shape[0] != m or c.V.shape[1] != n or c.U.shape[1] != c.V.shape[0]:
         return None, FAIL(f'factor shapes {c.U.shape}, {c.V.shape} for a {m} x {n} matrix')
+    if c.U.dtype.kind != 'f' or c.V.dtype.kind != 'f':
+        return None, FAIL(f'factor dtypes {c.U.dtype}, {c.V.dtype} for input dtype {c.inp.dtype}')
     if not (np.all(np.isfinite(c.U)) and np.all(np.isfinite(c.V))):
         return None, FAIL('non-finite factors')
+    c.U, c.V = c.U.astype(float), c.V.astype(float)
     c.q = c.U.shape[1]
     return c, None
 
@@ -449,30 +546,30 @@ SK = ('svd.matrix_skeleton',)
 
 
 @clause('C03.matrix_skeleton.rank_selection', funcs=SK)
-def msk_rank(m, n, seed, kind, scale, e, cap, rel, give_to, hermitian, layout='C'):
+def msk_rank(m, n, seed, kind, scale, e, cap, rel, give_to, hermitian, layout='C', dtype='float64', form='std'):
     """q <= max(1, int(r)); q = smallest size whose discarded tail energy is <= e (relative to s_0 when rel) unless
     the cap binds."""
-    c, res = run_matrix(teneva.matrix_skeleton, m, n, seed, kind, scale, e, cap, rel=rel, layout=layout, hermitian=hermitian, give_to=give_to)
-    return res if c is None else _rank_selection(c, 1e-12)
+    c, res = run_matrix(teneva.matrix_skeleton, m, n, seed, kind, scale, e, cap, rel=rel, layout=layout, dtype=dtype, form=form, hermitian=hermitian, give_to=give_to)
+    return res if c is None else _rank_selection(c, 1e-12 * (c.eps / EPS))
 
 
 @clause('C03.matrix_skeleton.best_approx', funcs=SK)
-def msk_best(m, n, seed, kind, scale, e, cap, rel, give_to, hermitian, layout='C'):
+def msk_best(m, n, seed, kind, scale, e, cap, rel, give_to, hermitian, layout='C', dtype='float64', form='std'):
     """U V is a best rank-q approximation: ||A - U V|| equals the l2 norm of the discarded singular values."""
-    c, res = run_matrix(teneva.matrix_skeleton, m, n, seed, kind, scale, e, cap, rel=rel, layout=layout, hermitian=hermitian, give_to=give_to)
-    return res if c is None else _best_approx(c, 64 * EPS)
+    c, res = run_matrix(teneva.matrix_skeleton, m, n, seed, kind, scale, e, cap, rel=rel, layout=layout, dtype=dtype, form=form, hermitian=hermitian, give_to=give_to)
+    return res if c is None else _best_approx(c, 64 * c.eps)
 
 
 @clause('C03.matrix_skeleton.give_to', funcs=SK)
-def msk_give_to(m, n, seed, kind, scale, e, cap, rel, give_to, hermitian, layout='C'):
+def msk_give_to(m, n, seed, kind, scale, e, cap, rel, give_to, hermitian, layout='C', dtype='float64', form='std'):
     """'l': V has orthonormal rows (weights in U); 'r': U has orthonormal columns; 'm': U^T U = V V^T = diag(s_1..s_q)."""
-    c, res = run_matrix(teneva.matrix_skeleton, m, n, seed, kind, scale, e, cap, rel=rel, layout=layout, hermitian=hermitian, give_to=give_to)
+    c, res = run_matrix(teneva.matrix_skeleton, m, n, seed, kind, scale, e, cap, rel=rel, layout=layout, dtype=dtype, form=form, hermitian=hermitian, give_to=give_to)
     if c is None:
         return res
     I = np.eye(c.q)
     GU, GV = c.U.T @ c.U, c.V @ c.V.T
     s = c.s[:c.q]
-    tol = 256 * EPS
+    tol = 256 * c.eps
     if give_to == 'l':
         ok = np.abs(GV - I).max() <= tol and np.abs(GU - np.diag(s ** 2)).max() <= tol * c.s[0] ** 2
     elif give_to == 'r':
@@ -489,32 +586,48 @@ MS_FLOOR = 1e-3      # the Gram-matrix eigen-decomposition resolves tail^2 only 
 
 
 @clause('C03.matrix_svd.rank_selection', funcs=MS)
-def msv_rank(m, n, seed, kind, scale, e, cap, layout='C'):
+def msv_rank(m, n, seed, kind, scale, e, cap, layout='C', dtype='float64', form='std'):
     """As matrix_skeleton.rank_selection (absolute e); thresholds and ambiguity respect the eps ||A||^2 resolution."""
-    c, res = run_matrix(teneva.matrix_svd, m, n, seed, kind, scale, e, cap, layout=layout, floor=MS_FLOOR)
-    return res if c is None else _rank_selection(c, 256 * EPS * len(c.s))
+    c, res = run_matrix(teneva.matrix_svd, m, n, seed, kind, scale, e, cap, layout=layout, dtype=dtype, form=form, floor=MS_FLOOR)
+    return res if c is None else _rank_selection(c, 256 * c.eps * len(c.s))
 
 
 @clause('C03.matrix_svd.best_approx', funcs=MS)
-def msv_best(m, n, seed, kind, scale, e, cap, layout='C'):
+def msv_best(m, n, seed, kind, scale, e, cap, layout='C', dtype='float64', form='std'):
     """U V is a best rank-q approximation up to the sqrt(eps) ||A|| resolution of the eigen-decomposition."""
-    c, res = run_matrix(teneva.matrix_svd, m, n, seed, kind, scale, e, cap, layout=layout, floor=MS_FLOOR)
-    return res if c is None else _best_approx(c, 4 * math.sqrt(EPS))
+    c, res = run_matrix(teneva.matrix_svd, m, n, seed, kind, scale, e, cap, layout=layout, dtype=dtype, form=form, floor=MS_FLOOR)
+    return res if c is None else _best_approx(c, 4 * math.sqrt(c.eps))
 
 
 @clause('C03.matrix_svd.right_orthonormal', funcs=MS)
-def msv_orth(m, n, seed, kind, scale, e, cap, layout='C'):
+def msv_orth(m, n, seed, kind, scale, e, cap, layout='C', dtype='float64', form='std'):
     """The right factor has orthonormal rows (up to eps (s_0 / s_q)^2); SKIP when s_q < 1e-5 s_0."""
-    c, res = run_matrix(teneva.matrix_svd, m, n, seed, kind, scale, e, cap, layout=layout, floor=MS_FLOOR)
+    c, res = run_matrix(teneva.matrix_svd, m, n, seed, kind, scale, e, cap, layout=layout, dtype=dtype, form=form, floor=MS_FLOOR)
     if c is None:
         return res
     sq = c.s[c.q - 1]
     if c.s[0] == 0 or sq < 1e-5 * c.s[0]:
         return SKIP('smallest kept singular value below 1e-5 s_0')
     G = c.V @ c.V.T
-    tol = 256 * EPS * (c.s[0] / sq) ** 2 * max(m, n)
+    tol = 256 * c.eps * (c.s[0] / sq) ** 2 * max(m, n)
     if not np.abs(G - np.eye(c.q)).max() <= tol:
         return FAIL(f'V V^T deviates from I by {np.abs(G - np.eye(c.q)).max():.3e} > {tol:.3e}')
+    return PASS
+
+
+@clause('C03.matrix_svd.integer_input', funcs=MS)
+def msv_integer(m, n, seed, kind, scale, e, cap, dtype, layout='C', form='std'):
+    """matrix_svd of a matrix given in an integer / bool dtype (int64, int32, int16, uint8, bool): the three clauses
+    above (rank selection, best approximation, orthonormal right factor) in one - kept apart from them because the
+    Gram matrix A A^T is formed IN THE DTYPE OF THE INPUT, which wraps round for the narrow types."""
+    if np.dtype(dtype).kind not in 'iub':
+        raise ValueError('integer / bool dtypes only')
+    for fn in (msv_rank, msv_best, msv_orth):
+        res = fn(m, n, seed, kind, scale, e, cap, layout=layout, dtype=dtype, form=form)
+        if res[0] == 'fail':
+            return FAIL(f'{fn.__name__}: {res[1]}')
+        if res[0] == 'skip' and fn is msv_rank and 'rounding distance' not in res[1]:
+            return res
     return PASS
 
 
@@ -746,6 +859,199 @@ def cases(tier, seed):
                         for cid in ('C03.matrix_skeleton.rank_selection', 'C03.matrix_skeleton.best_approx', 'C03.matrix_skeleton.give_to'):
                             yield cid, dict(m=m, n=m, seed=j, kind=kind, scale=scale, rel=bool(j % 2), give_to=give_to,
                                             hermitian=True, e=e, cap=1e12 if give_to != 'm' else 2)
+    # ---- dtype of the dense input (int64 / int32 / int16 / uint8 / bool / float32 / big-endian float64), also in
+    # Fortran order / as strided and reversed views: the same contract, reference = float64 image of what is passed
+    MSK = ('C03.matrix_skeleton.rank_selection', 'C03.matrix_skeleton.best_approx', 'C03.matrix_skeleton.give_to')
+    MSV = ('C03.matrix_svd.rank_selection', 'C03.matrix_svd.best_approx', 'C03.matrix_svd.right_orthonormal')
+    dshapes = [[3, 4], [2, 3, 2], [3, 2, 4], [1, 3, 2], [2, 3, 2, 2], [5, 1]] + ([[4, 4, 4], [2, 2, 2, 2, 2], [6, 7]] if big else [])
+    for ni, n in enumerate(dshapes):
+        for ki, kind in enumerate(kinds):
+            for di, dtype in enumerate(DTYPES):
+                if not big and ((ni + ki + di) % 3 == 2 or (dtype in ('int16', '>f8') and (ni + ki) % 2)):
+                    continue
+                isint = np.dtype(dtype).kind in 'iub'
+                mags = (1.0, 1e3, 1e6) if isint else (1.0, 1e-6, 1e6)
+                if np.dtype(dtype).itemsize == 1:
+                    mags = (1.0,)
+                elif dtype == 'int16':
+                    mags = (1.0, 100.0)
+                if not big:
+                    mags = mags[(ni + ki + di) % len(mags):][:1]
+                for mi, mag in enumerate(mags):
+                    base = dict(n=n, seed=300 + ni, kind=kind, mag=mag, via='svd', dtype=dtype)
+                    es = [['rel', 0.3], ['rel', 1e-2], ['rel', 1e-6], ['abs', 1e-10], ['rel', 1.5]]
+                    for ei, e in enumerate(es if big else [es[(ni + di) % 2], es[2 + (ki + di) % 3]]):
+                        for cid in SVD4:
+                            yield cid, dict(base, e=e, cap=1e12)
+                    if big or (ni + ki + di) % 2 == 0:
+                        for cid in SVD4:
+                            yield cid, dict(base, e=['rel', 0.05], cap=2)
+                    for k in ((0, len(n) - 2) if big else ((ni + di) % max(1, len(n) - 1),)):
+                        for q in ((1, 2) if big else (1 + (ki + di) % 2,)):
+                            for sign in (1, -1):
+                                for cid in SVD4:
+                                    yield cid, dict(base, e=['thr', k, q, sign], cap=1e12)
+                    for li, layout in enumerate('FVR'):
+                        if big or (ni + ki + di + li) % 3 == 0:
+                            for cid in SVD4:
+                                yield cid, dict(base, e=['rel', 0.1], cap=1e12, layout=layout)
+                                yield cid, dict(base, e=['rel', 1e-6], cap=1e12 if li else 2, layout=layout)
+        for di, dtype in enumerate(DTYPES):
+            for rho in (1, 2, 3):
+                for mag in ((1.0, 1e3, 1e6) if big else ((1.0, 1e3, 1e6)[(ni + di + rho) % 3],)):
+                    yield 'C03.svd.exact_lowrank', dict(n=n, seed=300 + ni + rho, rho=rho, mag=mag, via='svd', dtype=dtype,
+                                                        layout='CFVR'[(ni + di + rho) % 4])
+            for e in (['abs', 1e-10], ['abs', 1.0]):
+                for cid in SVD4:
+                    yield cid, dict(n=n, seed=0, kind='zero', mag=1.0, via='svd', e=e, cap=1e12, dtype=dtype)
+    for q in (2, 3) + ((4,) if big else ()):
+        for ki, kind in enumerate(('gauss', 'lowrank:2', 'int')):
+            for di, dtype in enumerate(DTYPES):
+                for mag in ((1.0, 1e3) if big else ((1.0, 1e3)[(q + ki + di) % 2],)):
+                    base = dict(n=[4] * q, seed=q, kind=kind, mag=mag, via='svd_matrix', dtype=dtype)
+                    for e in (['rel', 0.3], ['rel', 1e-2], ['rel', 1e-6]):
+                        for cid in SVD4:
+                            yield cid, dict(base, e=e, cap=1e12, layout='CFVR'[(q + ki + di) % 4])
+                    for cid in SVD4:
+                        yield cid, dict(base, e=['rel', 1e-2], cap=2)
+                    for sign in (1, -1):
+                        for cid in SVD4:
+                            yield cid, dict(base, e=['thr', (q + di) % (q - 1), 1 + ki, sign], cap=1e12)
+        for di, dtype in enumerate(DTYPES):
+            for rho in (1, 2):
+                yield 'C03.svd.exact_lowrank', dict(n=[4] * q, seed=q + rho, rho=rho, mag=(1.0, 1e3)[(q + di) % 2], via='svd_matrix', dtype=dtype)
+    # (q = 1 is left to float64: the interleaved tensor has d = 1 there - outside the quantifier d >= 2 - and svd returns
+    #  the copy of an integer array as the only core, in the integer dtype.  DOUBTFUL, reported, not yielded.)
+    for q in range(2, 7 if big else 6):
+        for ci, coding in enumerate(('pos', 'rowcol', 'rand1', 'rand2')):
+            for di, dtype in enumerate(DTYPES):
+                yield 'C03.svd_matrix.roundtrip', dict(q=q, coding=coding, cap=1e12, layout='CFVR'[(q + ci + di) % 4], dtype=dtype)
+                if (q + ci + di) % 3 == 0:
+                    yield 'C03.svd_matrix.roundtrip', dict(q=q, coding=coding, cap=2, dtype=dtype)
+    j = 5000
+    for (m, n) in [(1, 1), (1, 4), (4, 1), (3, 3), (4, 6), (7, 5)] + ([(8, 8), (2, 9), (30, 4)] if big else []):
+        for ki, kind in enumerate(('gauss', 'rank:2', 'spec:geom', 'spec:ties', 'spec:zeros')):
+            for di, dtype in enumerate(DTYPES):
+                if not big and ((m + ki + di) % 3 == 2 or (dtype in ('int16', '>f8') and (m + ki) % 2)):
+                    continue
+                isint = np.dtype(dtype).kind in 'iub'
+                scs = (1.0, 1e3, 1e6) if isint else (1.0, 1e-6, 1e6)
+                if np.dtype(dtype).itemsize == 1:
+                    scs = (1.0,)
+                elif dtype == 'int16':
+                    scs = (1.0, 100.0)
+                for scale in (scs if big else scs[(m + n + ki + di) % len(scs):][:1]):
+                    j += 1
+                    es = [['rel', 0.9], ['rel', 0.3], ['rel', 1e-2], ['rel', 1e-6], ['abs', 1e-10], ['rel', 2.0]]
+                    es += [['thr', q, sg] for q in (1, 2, 3) for sg in (1, -1)]
+                    for ei, e in enumerate(es):
+                        if (ei + j) % 3 if not big else (ei + j) % 2 and e[0] == 'thr':
+                            continue
+                        lay = 'CFVR'[(ei + j) % 4]
+                        for cid in (MSV if not isint else ('C03.matrix_svd.integer_input',)):
+                            yield cid, dict(m=m, n=n, seed=j, kind=kind, scale=scale, e=e, cap=(1e12, 2)[(ei + j) % 5 == 0], dtype=dtype, layout=lay)
+                        for gi, give_to in enumerate('lrm'):
+                            if not big and (gi + ei + j) % 3:
+                                continue
+                            for cid in MSK:
+                                yield cid, dict(m=m, n=n, seed=j, kind=kind, scale=scale, e=e, cap=(1e12, 2)[(ei + j) % 5 == 0],
+                                                rel=bool((gi + ei + j) % 2), give_to=give_to, hermitian=False, dtype=dtype, layout=lay)
+        if m == n:
+            for kind in ('sym', 'symspec:geom'):
+                for di, dtype in enumerate(DTYPES):
+                    j += 1
+                    for gi, give_to in enumerate('lrm'):
+                        for e in (['rel', 0.3], ['rel', 1e-6], ['thr', 1, 1], ['thr', 2, -1]):
+                            for cid in MSK:
+                                yield cid, dict(m=m, n=n, seed=j, kind=kind, scale=(1.0, 1e3)[(di + gi) % 2] if np.dtype(dtype).itemsize > 1 else 1.0,
+                                                e=e, cap=1e12, rel=bool((gi + di) % 2), give_to=give_to, hermitian=True, dtype=dtype)
+        for di, dtype in enumerate(DTYPES):
+            for cid in (MSV if np.dtype(dtype).kind == 'f' else ('C03.matrix_svd.integer_input',)):
+                yield cid, dict(m=m, n=n, seed=0, kind='zero', scale=1.0, e=['abs', 1e-10], cap=1e12, dtype=dtype)
+            for cid in MSK:
+                yield cid, dict(m=m, n=n, seed=0, kind='zero', scale=1.0, e=['abs', 1e-10], cap=1e12, rel=False, give_to='lrm'[di % 3],
+                                hermitian=False, dtype=dtype)
+    # ---- call FORMS of the anchored functions against the documented signatures (SIG): every argument positional in the
+    # documented order, every argument by keyword, positional prefix + keywords, trailing defaults left out
+    for ni, n in enumerate([[3, 4], [2, 3, 2], [3, 2, 4], [2, 3, 2, 2]] + ([[4, 4, 4], [1, 3, 2]] if big else [])):
+        for ki, kind in enumerate(kinds):
+            for mag in ((1e-5, 1.0, 1e4) if big else ((1e-5, 1.0, 1e4)[(ni + ki) % 3],)):
+                base = dict(n=n, seed=400 + ni, kind=kind, mag=mag, via='svd')
+                for fi, form in enumerate(('kw', 'mix:1', 'mix:2', 'min', 'kwmin')):
+                    for ei, (e, cap) in enumerate(((['rel', 0.2], 1e12), (['rel', 1e-3], 2), (['abs', 1e-10], 1e12), (['abs', 1e-10], 1),
+                                                   (['thr', 0, 1, 1], 1e12))):
+                        if not big and form != 'min' and (ei + fi + ni + ki) % 2:
+                            continue
+                        for cid in SVD4:
+                            yield cid, dict(base, e=e, cap=cap, form=form)
+                    yield 'C03.svd.exact_lowrank', dict(n=n, seed=400 + ni, rho=1 + ki % 2, mag=mag, via='svd', form=form)
+    for q in (2, 3):
+        for ki, kind in enumerate(('gauss', 'lowrank:2', 'decay')):
+            for form in ('kw', 'mix:1', 'mix:2', 'min', 'kwmin'):
+                base = dict(n=[4] * q, seed=q + 40, kind=kind, mag=(1e-5, 1.0, 1e4)[(q + ki) % 3], via='svd_matrix', form=form)
+                for e, cap in ((['rel', 0.2], 1e12), (['rel', 1e-3], 2), (['abs', 1e-10], 1e12), (['thr', 0, 1, 1], 1e12)):
+                    for cid in SVD4:
+                        yield cid, dict(base, e=e, cap=cap)
+        for form in ('kw', 'mix:1', 'mix:2', 'min', 'kwmin'):
+            for coding in ('pos', 'rand1'):
+                for cap in (1e12, 2):
+                    yield 'C03.svd_matrix.roundtrip', dict(q=q, coding=coding, cap=cap, form=form)
+        for form in ('pos', 'kw'):
+            for r in (1, 3):
+                yield 'C03.full_matrix.interleave', dict(q=q, r=r, seed=5, form=form)
+    j = 6000
+    for (m, n) in [(1, 1), (1, 4), (4, 1), (3, 3), (4, 6), (9, 7), (6, 11), (8, 8), (5, 12)]:
+        for ki, kind in enumerate(('gauss', 'rank:2', 'spec:geom', 'spec:ties')):
+            if not big and (m * n + ki) % 2:
+                continue
+            for scale in ((1e-5, 1.0, 1e4) if big else ((1e-5, 1.0, 1e4)[(m + n + ki) % 3],)):
+                j += 1
+                es = [['rel', 0.3], ['rel', 2e-2], ['rel', 1e-6], ['abs', 1e-10], ['thr', 1, 1], ['thr', 2, -1], ['thr', 3, 1]]
+                for form in ('pos', 'kw', 'mix:3', 'mix:4', 'mix:5', 'min', 'kwmin'):
+                    for rel in (False, True):
+                        for give_to in 'lrm':
+                            for ei, (e, cap) in enumerate([(e, 1e12) for e in es] + [(['rel', 1e-9], 3), (['rel', 1e-2], 1)]):
+                                if (ei + j + 2 * rel + 'lrm'.index(give_to) + len(form)) % (3 if big else 9):
+                                    continue
+                                for cid in MSK:
+                                    yield cid, dict(m=m, n=n, seed=j, kind=kind, scale=scale, e=e, cap=cap, rel=rel, give_to=give_to,
+                                                    hermitian=False, form=form)
+                for fi, form in enumerate(('kw', 'mix:1', 'mix:2', 'min', 'kwmin')):
+                    for ei, (e, cap) in enumerate(((['rel', 0.3], 1e12), (['rel', 1e-2], 2), (['abs', 1e-10], 1e12), (['thr', 1, 1], 1e12))):
+                        if not big and (ei + fi + j) % 2:
+                            continue
+                        for cid in MSV:
+                            yield cid, dict(m=m, n=n, seed=j, kind=kind, scale=scale, e=e, cap=cap, form=form)
+        if m == n:
+            for kind in ('sym', 'symspec:geom', 'symspec:ties'):
+                j += 1
+                for form in ('pos', 'kw', 'mix:3', 'mix:4', 'mix:5', 'min', 'kwmin'):
+                    for rel in (False, True):
+                        for gi, give_to in enumerate('lrm'):
+                            for ei, e in enumerate((['rel', 0.3], ['rel', 1e-6], ['thr', 1, 1], ['thr', 2, -1])):
+                                if not big and (ei + gi + rel + len(form) + j) % 4:
+                                    continue
+                                for cid in MSK:
+                                    yield cid, dict(m=m, n=n, seed=j, kind=kind, scale=(1e-5, 1.0, 1e4)[j % 3], e=e, cap=1e12, rel=rel,
+                                                    give_to=give_to, hermitian=True, form=form)
+    # the documented DEFAULTS left out of the call (svd(A), matrix_skeleton(A), matrix_svd(A) ...: e = 1e-10, r = 1e12,
+    # hermitian = rel = False, give_to = 'm') on data whose unfolding tails straddle the absolute default accuracy 1e-10
+    for mag in (1e-7, 1e-8, 1e-9, 3e-10):
+        for form in ('min', 'kwmin', 'mix:1'):
+            for ni, n in enumerate(([3, 4], [2, 3, 2], [4, 4], [2, 2, 3, 2])):
+                for kind in ('decay', 'gauss'):
+                    for cid in SVD4:
+                        yield cid, dict(n=n, seed=450 + ni, kind=kind, mag=mag, via='svd', e=['abs', 1e-10], cap=1e12, form=form)
+            for kind in ('decay', 'gauss'):
+                for cid in SVD4:
+                    yield cid, dict(n=[4, 4], seed=452, kind=kind, mag=mag, via='svd_matrix', e=['abs', 1e-10], cap=1e12, form=form)
+            for (m, n) in ((4, 6), (5, 5), (7, 3)):
+                for kind in ('spec:geom', 'gauss'):
+                    for cid in MSK:
+                        yield cid, dict(m=m, n=n, seed=460 + m, kind=kind, scale=mag, e=['abs', 1e-10], cap=1e12, rel=False, give_to='m',
+                                        hermitian=False, form=form)
+                    for cid in MSV:
+                        yield cid, dict(m=m, n=n, seed=460 + m, kind=kind, scale=mag, e=['abs', 1e-10], cap=1e12, form=form)
     # ---- seeded random part
     for _ in range(400 if big else 80):
         d = int(g.integers(2, 6 if big else 5))
